@@ -282,6 +282,15 @@ def judgeRoundtrip (T : Ty) (bytes : List Nat) (txt : Option (List Nat)) (back :
   | .fin _ _ _ => cs
   | _ => cs ++ cs.map fun (p, w) => (if p == "C05" then p else "C09", w)
 
+/-- The reparse step of a round trip is itself a parse of a known text, so everything C01/C07/C09 say about parsing
+    applies to it: in particular the bytes read back are the *canonical* encoding at their width, also for the dynamic
+    types, where `judgeRoundtripCore` only compares the datum.  Complaints are re-tagged C03 with the parse property in
+    brackets (`C03:[C09] reparse: …`). -/
+def judgeReparse (T : Ty) (txt : List Nat) (back : PAns) : Complaints :=
+  match back with
+  | .ok _ => (judgeParse T txt back).map fun (p, w) => (if p == "C05" then p else "C03", s!"[{p}] reparse: {w}")
+  | _ => []
+
 /-- text → bits → text: the text printed for a parsed numeral denotes the same datum -/
 def judgeReprint (txt : List Nat) (printed : List Nat) : Complaints :=
   match parse txt, parse printed with
